@@ -20,7 +20,6 @@ import (
 	"github.com/markkurossi/mpc/compiler/utils"
 	"github.com/markkurossi/mpc/env"
 	"github.com/markkurossi/mpc/ot"
-	"github.com/markkurossi/mpc/p2p"
 	"github.com/markkurossi/mpc/sha2pc"
 	"pgregory.net/rapid"
 
@@ -166,7 +165,7 @@ func bitsToInt(bits []bool) *big.Int {
 func run(cs Case) ev.Outcome {
 	d := xport.NewDuplex(nil, nil)
 	d.Record()
-	gConn, eConn := p2p.NewConn(d.A), p2p.NewConn(d.B)
+	gConn, eConn := d.Conns()
 	spy := &spyOT{OT: makeOT(cs.OT, cs.Seed, 0)}
 	eOT := makeOT(cs.OT, cs.Seed, 1)
 	cfg := &env.Config{Rand: gen.NewDRBG(cs.Seed, 1)}
@@ -478,7 +477,7 @@ func runRange(cs RangeCase) ev.Outcome {
 		return ev.Outcome{Skip: "malformed case"}
 	}
 	d := xport.NewDuplex(nil, nil)
-	gConn, eConn := p2p.NewConn(d.A), p2p.NewConn(d.B)
+	gConn, eConn := d.Conns()
 	spy := &spyOT{OT: ot.NewCO(gen.NewDRBG(cs.Seed, 10))}
 	cfg := &env.Config{Rand: gen.NewDRBG(cs.Seed, 1)}
 	var clear []ot.Label // garbler input labels sent in the clear
